@@ -268,7 +268,7 @@ def unary_contract(stub=False):
              ensures=P.parse_level('unary', 'Unary', None, UNARY_PROPS).ensures, props=UNARY_PROPS + ('C01',))
 
 
-PRIMARY_PROPS = ('C02', 'C18', 'C17', 'C13', 'C09', 'C10')
+PRIMARY_PROPS = ('C02', 'C18', 'C17', 'C13', 'C09', 'C10', 'C14')
 T0 = 'old(self).tokenizer.toks()[old(self).tokenizer.pos() as int]'
 ONE = 'final(self).tokenizer.pos() == old(self).tokenizer.pos() + 1 && final(self).next_label == old(self).next_label'
 
